@@ -96,6 +96,12 @@ def compare_case(desc, driver, rng, R=3, built=None, points=None, want=('rows', 
         k = tag.split()[0]
         res.tags[k] = res.tags.get(k, 0) + 1
     um, ui, ex = Mo.match_atoms(model_atoms, impl_atoms)
+    # a row whose body is constant at its point (e.g. `t*v >= -1/4` at t0 = 0) and true is dropped by rockit
+    # (OptiWrapper.subject_to skips constant-true expressions): such atoms do not restrict anything
+    if len(pts) >= 2:
+        triv = [(t, v) for t, v in um if all(x == v[0] for x in v) and v[0] >= 0]
+        um = [(t, v) for t, v in um if not (all(x == v[0] for x in v) and v[0] >= 0)]
+        res.trivial_rows = len(triv)
     res.n_exact = ex
     res.unmatched_model = um
     res.unmatched_impl = [(i, [float(v[0]) for v in impl_atoms[i]]) for i in ui]
